@@ -15,7 +15,7 @@ content:
 layout:
     byteorder "<" | ">", compress bool, zlevel, version 1..4, ct_block, ct_order, ct_pos "before_data"|"after_data",
     rt_block (fan-out), ips (items per data block), node_order in NODE_ORDERS, order_seed, pad_nodes bool,
-    zooms [reduction...], zoom_ips, zoom_count_word bool, zoom_cross_chrom bool, trailing_magic bool, ubs_slack int
+    zooms [reduction...], zoom_ips, zoom_count_word bool, zoom_cross_chrom bool, no_summary bool, summary_in_v1 bool, trailing_magic bool, ubs_slack int
 Python stdlib only; written from the format description, shares nothing with bigtools or with decode.py
 except the statistics helpers' *definitions* (each module has its own implementation).
 """
@@ -442,7 +442,8 @@ def encode_with_model(content, layout):
         out += content["autosql"].encode("utf-8") + b"\0"
     summary_off = 0
     summ = total_summary(content)
-    if version >= 2 or layout.get("summary_in_v1"):
+    # a total summary is optional whatever the version says: totalSummaryOffset == 0 means "none"
+    if (version >= 2 and not layout.get("no_summary")) or (version < 2 and layout.get("summary_in_v1")):
         summary_off = len(out)
         out += struct.pack(bo + "Qdddd", *summ)
     ct_order = layout.get("ct_order", "level")
@@ -720,6 +721,7 @@ def gen_layout(rng, content, node_order=None, version=None, byteorder=None, comp
         zooms=zooms,
         zoom_ips=rng.choice([1, 2, 3, 8]),
         zoom_cross_chrom=rng.random() < 0.5,
+        no_summary=rng.random() < 0.15,
         zoom_count_word=rng.random() < 0.5,
         trailing_magic=True if version >= 2 else rng.random() < 0.5,
         ubs_slack=rng.choice([0, 0, 1, 100, 32768]),
@@ -733,7 +735,9 @@ def cross_check(content, layout, data, model):
     """decode(encode(x)) must have no problems and identical content. Returns a list of disagreement strings."""
     from . import decode as D
     d = D.decode(data)
-    bad = ["%s:%s %s" % p for p in d.problems]
+    # the decoder is strict about what *bigtools* writes (a version-4 file has a total summary); a foreign file may
+    # legitimately leave it out, which is what layout no_summary asks for
+    bad = ["%s:%s %s" % p for p in d.problems if not (layout.get("no_summary") and p[0] == "total_summary_missing")]
     bad += ["stats %s:%s %s" % p for p in D.recompute_stats(d)]
     if d.kind != content["kind"]:
         return bad + ["kind %r" % d.kind]
